@@ -24,6 +24,7 @@ ExportSpec == Init /\ [][ExportNext]_vars
 
 TAll == {"q0", "q0id", "s0", "q1", "q2", "q1id1", "q1long", "q1big", "s1", "s1long", "c2", "c4", "c7", "sd", "ack"}
 TResp == {"q0", "q1", "s0", "s1", "c2", "c4", "sd", "ack", "in1", "close", "ctl"}
+TEmpty == {"s0", "s1", "c0", "c2", "c4", "sd", "q0", "ack"}
 TNb == {"q1nb", "q1", "s1", "s0", "c2", "c4", "sd", "ack"}
 TStream == {"q0", "q1", "s0", "s1", "s1long", "c2", "c4", "c7", "sd", "ack"}
 =============================================================================
